@@ -5,7 +5,7 @@
    evaluated on the implementation's own observations. *)
 From Coq Require Import List NArith ZArith Bool String Ascii Strings.Byte.
 From FwdLib Require Import Bytes.
-From G03 Require Import Tables Tunnel Abstract ReplyReader.
+From G03 Require Import Tables Tunnel Abstract ReplyReader Deadlines.
 Import ListNotations.
 Open Scope N_scope.
 
@@ -124,8 +124,20 @@ Definition drain_rereads : bool := drain_peeks_only && up_copier_reads_bufio.
 Definition tables_shape (grace : Z) : shape :=
   mkShape copy_buf_size grace tunnel_drain_first drain_rereads
           (copier_closewrite_after_copy && closewriter_calls_closewrite) bicopy_waits_all
-          closes_upstream_after_tunnel closes_client_after_tunnel tunnel_clears_read_deadline
-          response_write_deadline_cleared.
+          closes_upstream_after_tunnel closes_client_after_tunnel.
+
+(* The deadline statements of the hand-over as extracted on this run, executed for the
+   configuration and the clock readings of one scenario: t_req is (a lower bound of) the
+   time.Now() taken when the request started to arrive, t_resp of the one taken when the
+   reply was written.  An unknown statement list counts as "both armed at once". *)
+Definition handover_ops : option (list dop) := dops_of_codes handover_deadline_ops.
+Definition op_time (t_req t_resp : Z) (op : dop) : Z :=
+  match op with RArmIdle | RArmHeader | RArmWholeIfDiff => t_req | _ => t_resp end.
+Definition case_deadlines (c : timeouts) (t_req t_resp : Z) : dls :=
+  match handover_ops with
+  | Some ops => exec c (map (fun op => (op, op_time t_req t_resp op)) ops) (None, None)
+  | None => (Some 0%Z, Some 0%Z)
+  end.
 
 Definition implb (a c : bool) : bool := negb a || c.
 
@@ -137,6 +149,7 @@ Record obs := {
 }.
 Record ccase := {
   cc_mode : N; cc_wellformed : bool; cc_grace : Z; cc_fr : framing;
+  cc_tmo : timeouts; cc_treq : Z; cc_tresp : Z;
   cc_early : list N; cc_skip : list N; cc_kept : list N;
   cc_trace : option (list label); cc_obs : obs
 }.
@@ -188,12 +201,15 @@ Definition predicted_skip (mode : N) (fr : framing) (avail : N) : option N :=
 Definition skip_ok (mode : N) (fr : framing) (avail skip : N) : bool :=
   match predicted_skip mode fr avail with Some n => skip =? n | None => true end.
 
+Definition cinit (c : ccase) : state :=
+  let '(r, w) := case_deadlines (cc_tmo c) (cc_treq c) (cc_tresp c) in init (cc_early c) (cc_skip c) (cc_kept c) r w.
+
 Definition cmodel_ok (c : ccase) : bool :=
   cc_wellformed c && skip_ok (cc_mode c) (cc_fr c) (len (o_sent (o_tc (cc_obs c)))) (len (cc_skip c)) &&
   match cc_trace c with
   | None => false
   | Some tr =>
-    match run (tables_shape (cc_grace c)) (init (cc_early c) (cc_skip c) (cc_kept c)) tr with
+    match run (tables_shape (cc_grace c)) (cinit c) tr with
     | Some s => final_ok (cc_mode c) (cc_grace c) s (cc_obs c)
     | None => false
     end
@@ -203,7 +219,7 @@ Definition cmodel_ok (c : ccase) : bool :=
 Definition crefusal (c : ccase) : option N :=
   match cc_trace c with
   | None => Some 0
-  | Some tr => refused_at (tables_shape (cc_grace c)) (init (cc_early c) (cc_skip c) (cc_kept c)) tr 0
+  | Some tr => refused_at (tables_shape (cc_grace c)) (cinit c) tr 0
   end.
 
 (* ---------------------------------------------------------- length level *)
@@ -214,6 +230,7 @@ Record aobs := {
 }.
 Record acase := {
   ac_mode : N; ac_wellformed : bool; ac_grace : Z; ac_fr : framing;
+  ac_tmo : timeouts; ac_treq : Z; ac_tresp : Z;
   ac_early : N; ac_skip : N; ac_kept : N;
   ac_trace : option (list alabel); ac_obs : aobs
 }.
@@ -244,12 +261,15 @@ Definition afinal_ok (mode : N) (grace : Z) (s : astate) (o : aobs) : bool :=
   && implb (as_forced s) (grace <=? a_force_gap o)%Z
   && ((mode =? 5) || str_eqb (a_reply o) connect_ok_response).
 
+Definition acinit (c : acase) : astate :=
+  let '(r, w) := case_deadlines (ac_tmo c) (ac_treq c) (ac_tresp c) in ainit (ac_early c) (ac_skip c) (ac_kept c) r w.
+
 Definition amodel_ok (c : acase) : bool :=
   ac_wellformed c && skip_ok (ac_mode c) (ac_fr c) (a_sent (a_tc (ac_obs c))) (ac_skip c) &&
   match ac_trace c with
   | None => false
   | Some tr =>
-    match arun (tables_shape (ac_grace c)) (ainit (ac_early c) (ac_skip c) (ac_kept c)) tr with
+    match arun (tables_shape (ac_grace c)) (acinit c) tr with
     | Some s => afinal_ok (ac_mode c) (ac_grace c) s (ac_obs c)
     | None => false
     end
@@ -258,7 +278,7 @@ Definition amodel_ok (c : acase) : bool :=
 Definition arefusal (c : acase) : option N :=
   match ac_trace c with
   | None => Some 0
-  | Some tr => arefused_at (tables_shape (ac_grace c)) (ainit (ac_early c) (ac_skip c) (ac_kept c)) tr 0
+  | Some tr => arefused_at (tables_shape (ac_grace c)) (acinit c) tr 0
   end.
 
 (* native scenarios (production listener and dialer, no wrappers): oracle only *)
